@@ -38,18 +38,19 @@ type World struct {
 	lookups map[string]int
 
 	// Fault knobs (permille unless stated), drawn from the fault tape.
-	ShortRead     int // TCP read returns fewer bytes than available
-	AcceptErr     int // AcceptTCP returns a transient error
-	UDPLoss       int
-	UDPDup        int
-	UDPDelay      int // datagram held back for a drawn time (reordering)
-	UDPWriteErr   int // proxy-side WriteTo fails
-	UDPSockErr    int // outbound socket creation fails
-	UDPReadErr    int // transient ReadFrom error
-	Window        int // TCP receive window in bytes
-	ListenFail    func(network, addr string) error
-	ConnectFail   func(ip net.IP, port int) error
-	FaultOnlyHost bool // apply UDP faults only to sockets bound without explicit address (the proxy's)
+	ShortRead        int // TCP read returns fewer bytes than available
+	AcceptErr        int // AcceptTCP returns a transient error
+	UDPLoss          int
+	UDPDup           int
+	UDPDelay         int // datagram held back for a drawn time (reordering)
+	UDPWriteErr      int // proxy-side WriteTo fails
+	UDPWriteErrBound int // WriteTo fails on server sockets bound to an explicit address (the listening socket), not on outbound ones
+	UDPSockErr       int // outbound socket creation fails
+	UDPReadErr       int // transient ReadFrom error
+	Window           int // TCP receive window in bytes
+	ListenFail       func(network, addr string) error
+	ConnectFail      func(ip net.IP, port int) error
+	FaultOnlyHost    bool // apply UDP faults only to sockets bound without explicit address (the proxy's)
 
 	// Ledger.
 	Conns  []*ConnRec
